@@ -3094,3 +3094,27 @@ def _randrange(ip, args, kwargs, node, fr):
     r = z3.Int(ip.fresh_name('rand'))
     ip.assume(z3.And(int_term(resolve(ip, lo)) <= r, r < int_term(resolve(ip, hi))))
     return VInt(r)
+
+
+
+@method('jdict', 'get')
+def _jd_get(ip, recv, args, kwargs, node, fr):
+    default = args[1] if len(args) > 1 else VConst(None)
+    k = resolve(ip, args[0])
+    if not is_str(k):
+        if isinstance(k, (VJList, VJDict, VList, VDict, VSet)):
+            raise PyRaise(VExc('TypeError'), node)      # unhashable key
+        return default                                  # JSON object keys are strings
+    kt = KStr.unwrap(k)
+    has = UF('jdict_has', z3.IntSort(), z3.StringSort(), z3.BoolSort())(recv.ident, kt)
+    val = VJ(UF('jdict_get', z3.IntSort(), z3.StringSort(), J_sort())(recv.ident, kt))
+    if ip.mode != 'code':
+        raise EngineError('jdict.get in specification mode')
+    if ip.branch(has):
+        return val
+    return default
+
+
+@method('jdict', 'copy')
+def _jd_copy(ip, recv, args, kwargs, node, fr):
+    return recv
